@@ -117,6 +117,22 @@ theorem stake_int64Of_is_source (x : Int) : Stake.int64Of x = Funcs.wrap64 x := 
   simp only
   split <;> (repeat' split) <;> omega
 
+/-- `Coin.IsValid` (the switch of the source) for a present amount of a named currency is the
+    model's validity test: the amount is not negative; a nil amount or a nameless currency is
+    never valid -/
+theorem isValid_is_source (c : Int) :
+    Ledger.isValid c = Funcs.coinIsValid c false false ∧
+    (∀ n, Funcs.coinIsValid c true n = false) ∧ (∀ a, Funcs.coinIsValid c a true = false) := by
+  refine ⟨?_, ?_, ?_⟩
+  · unfold Ledger.isValid Funcs.coinIsValid
+    by_cases h : 0 ≤ c
+    · have : c ≥ 0 := h
+      simp [h, this]
+    · have : ¬ c ≥ 0 := h
+      simp [h, this]
+  · intro n; simp [Funcs.coinIsValid]
+  · intro a; cases a <;> simp [Funcs.coinIsValid]
+
 /-- `Amount.ToCoinWithBase` of the ledger model is the source's `NewCoinFromInt` of `Int64()` of the
     value: the wrap-around comes first, then the multiplication by 10^decimals -/
 theorem toCoinWithBase_is_source (value : Int) (decimals : Nat) :
